@@ -1060,6 +1060,9 @@ def np_atleast_1d(ex, v):
 
 
 def flatten(ex, a, order="C"):
+    if order not in ("C", "F"):
+        # 'K' / 'A' follow the memory layout of the array, which the value model does not represent
+        raise Unsupported(f"flatten/ravel with order={order!r} depends on the memory layout (not modelled)")
     if isinstance(a, Arr0V):
         return SeqV.of("array", [a.v])
     if isinstance(a, SeqV):
